@@ -104,6 +104,20 @@ pub struct TapeDe<'t> {
     frozen: usize,
     /// newtype name wrapping the next scalar (Uint24 / Int24 have narrower ranges than their repr)
     newtype: Option<&'static str>,
+    /// distinct-counts family: (struct, field) → value of a plain integer field, taken without a choice
+    pub forced_scalars: Option<&'t BTreeMap<(String, String), i128>>,
+    /// distinct-counts family: (struct, field) → an `Option` field is Some / None without a choice
+    pub forced_options: Option<&'t BTreeMap<(String, String), bool>>,
+    /// distinct-counts family: when Some, every integer / float scalar that is a direct member (field
+    /// or array element) of a struct listed in `counter_structs`, is not one of that struct's
+    /// `governing` fields, is not a flags word / version / tuple index / enumerated field and is not
+    /// pinned, takes the next value of a running counter (1, 2, 3 …) instead of a choice, so that
+    /// every array element is distinguishable
+    pub counter: Option<u64>,
+    pub counter_structs: Option<&'t std::collections::BTreeSet<String>>,
+    pub governing: Option<&'t std::collections::BTreeSet<(String, String)>>,
+    /// is the innermost struct being deserialized one of `counter_structs`?
+    struct_stack: Vec<bool>,
 }
 
 pub const MAX_DEPTH: usize = 40;
@@ -185,7 +199,32 @@ impl<'t> TapeDe<'t> {
             cur: None,
             frozen: 0,
             newtype: None,
+            forced_scalars: None,
+            forced_options: None,
+            counter: None,
+            counter_structs: None,
+            governing: None,
+            struct_stack: vec![],
         }
+    }
+    /// forced value of the plain integer field `cur`, if the plan names it
+    fn forced(&self, cur: Option<(&'static str, &'static str)>) -> Option<i128> {
+        let (s, f) = cur?;
+        self.forced_scalars?.get(&(s.to_string(), f.to_string())).copied()
+    }
+    /// next counter value for a scalar at `cur` (None = use the ordinary alphabet)
+    fn next_counter(&mut self, cur: Option<(&'static str, &'static str)>) -> Option<u64> {
+        let c = self.counter?;
+        if self.frozen > 0 || !self.struct_stack.last().copied().unwrap_or(false) {
+            return None;
+        }
+        if let (Some((s, f)), Some(g)) = (cur, self.governing) {
+            if g.contains(&(s.to_string(), f.to_string())) {
+                return None;
+            }
+        }
+        self.counter = Some(c + 1);
+        Some(c + 1)
     }
     /// every decision goes through here; inside a pinned element the default is taken and no
     /// choice point is recorded
@@ -211,12 +250,20 @@ impl<'t> TapeDe<'t> {
 macro_rules! scalar {
     ($fn:ident, $visit:ident, $field:ident, $ty:ty) => {
         fn $fn<V: Visitor<'de>>(self, v: V) -> Result<V::Value, DeErr> {
-            self.cur = None;
+            let cur = self.cur.take();
             self.newtype = None;
+            if let Some(x) = self.forced(cur) {
+                self.flag_alpha = None;
+                return v.$visit(x as $ty);
+            }
             if let Some(fa) = self.flag_alpha.take() {
                 // `bits` of a flags word: 0, every declared constant, their union, all ones
                 let x = self.pick(fa);
                 return v.$visit(x as $ty);
+            }
+            if let Some(c) = self.next_counter(cur) {
+                // keep small so that the value fits every integer width without wrapping to 0
+                return v.$visit(((c - 1) % 120 + 1) as $ty);
             }
             let a = self.alpha;
             let x: $ty = self.pick(&a.$field);
@@ -250,6 +297,10 @@ impl<'de, 'a, 't> de::Deserializer<'de> for &'a mut TapeDe<'t> {
     fn deserialize_u16<V: Visitor<'de>>(self, v: V) -> Result<V::Value, DeErr> {
         let cur = self.cur.take();
         let nt = self.newtype.take();
+        if let Some(x) = self.forced(cur) {
+            self.flag_alpha = None;
+            return v.visit_u16(x as u16);
+        }
         if let Some((s, f)) = cur {
             if let Some((_, _, a)) = FIELD_ALPHABETS.iter().find(|(fs, ff, _)| *fs == s && *ff == f) {
                 if nt.is_none() && self.flag_alpha.is_none() {
@@ -267,6 +318,9 @@ impl<'de, 'a, 't> de::Deserializer<'de> for &'a mut TapeDe<'t> {
             let x = self.pick(&TUPLE_INDEX);
             return v.visit_u16(x);
         }
+        if let Some(c) = self.next_counter(cur) {
+            return v.visit_u16(((c - 1) % 30000 + 1) as u16);
+        }
         let a = self.alpha;
         let x = self.pick(&a.u16_);
         v.visit_u16(x)
@@ -275,7 +329,12 @@ impl<'de, 'a, 't> de::Deserializer<'de> for &'a mut TapeDe<'t> {
     scalar!(deserialize_u64, visit_u64, u64_, u64);
     scalar!(deserialize_i64, visit_i64, i64_, i64);
     fn deserialize_u32<V: Visitor<'de>>(self, v: V) -> Result<V::Value, DeErr> {
-        self.cur = None;
+        let cur = self.cur.take();
+        if let Some(x) = self.forced(cur) {
+            self.flag_alpha = None;
+            self.newtype = None;
+            return v.visit_u32(x as u32);
+        }
         if let Some(fa) = self.flag_alpha.take() {
             self.newtype = None;
             let x = self.pick(fa);
@@ -283,6 +342,11 @@ impl<'de, 'a, 't> de::Deserializer<'de> for &'a mut TapeDe<'t> {
         }
         let a = self.alpha;
         let nt = self.newtype.take();
+        if nt != Some("Version16Dot16") {
+            if let Some(c) = self.next_counter(cur) {
+                return v.visit_u32(((c - 1) % 30000 + 1) as u32);
+            }
+        }
         let x = if nt == Some("Uint24") {
             self.pick(&a.u24)
         } else if nt == Some("Version16Dot16") {
@@ -294,7 +358,11 @@ impl<'de, 'a, 't> de::Deserializer<'de> for &'a mut TapeDe<'t> {
         v.visit_u32(x)
     }
     fn deserialize_i32<V: Visitor<'de>>(self, v: V) -> Result<V::Value, DeErr> {
-        self.cur = None;
+        let cur = self.cur.take();
+        if let Some(c) = self.next_counter(cur) {
+            self.newtype = None;
+            return v.visit_i32(((c - 1) % 30000 + 1) as i32);
+        }
         let a = self.alpha;
         let x = if self.newtype.take() == Some("Int24") {
             self.pick(&a.i24)
@@ -304,13 +372,20 @@ impl<'de, 'a, 't> de::Deserializer<'de> for &'a mut TapeDe<'t> {
         v.visit_i32(x)
     }
     fn deserialize_f32<V: Visitor<'de>>(self, v: V) -> Result<V::Value, DeErr> {
-        self.cur = None;
+        let cur = self.cur.take();
+        if let Some(c) = self.next_counter(cur) {
+            // k/64 in [0, 1): exact in f32, F2Dot14 and Fixed
+            return v.visit_f32((c % 64) as f32 / 64.0);
+        }
         let a = self.alpha;
         let x = self.pick(&a.f);
         v.visit_f32(x as f32)
     }
     fn deserialize_f64<V: Visitor<'de>>(self, v: V) -> Result<V::Value, DeErr> {
-        self.cur = None;
+        let cur = self.cur.take();
+        if let Some(c) = self.next_counter(cur) {
+            return v.visit_f64((c % 64) as f64 / 64.0);
+        }
         let a = self.alpha;
         let x = self.pick(&a.f);
         v.visit_f64(x)
@@ -346,6 +421,19 @@ impl<'de, 'a, 't> de::Deserializer<'de> for &'a mut TapeDe<'t> {
         v.visit_byte_buf(b)
     }
     fn deserialize_option<V: Visitor<'de>>(self, v: V) -> Result<V::Value, DeErr> {
+        if let (Some((s, f)), Some(fo)) = (self.cur, self.forced_options) {
+            if let Some(some) = fo.get(&(s.to_string(), f.to_string())).copied() {
+                if !some {
+                    self.cur = None;
+                    return v.visit_none();
+                }
+                // keep `cur` so that a sequence inside sees its forced length
+                self.enter()?;
+                let r = v.visit_some(&mut *self);
+                self.depth -= 1;
+                return r;
+            }
+        }
         if self.force_some_for_forced_arrays {
             if let Some((s, f)) = self.cur {
                 if self.literal_counts.contains_key(&(s.to_string(), f.to_string())) {
@@ -406,6 +494,7 @@ impl<'de, 'a, 't> de::Deserializer<'de> for &'a mut TapeDe<'t> {
             sname: "",
             idx: 0,
             pinned_total: if lit.map(|n| n > PIN_ABOVE).unwrap_or(false) { n } else { 0 },
+            cur_override: None,
         });
         self.depth -= 1;
         r
@@ -420,6 +509,7 @@ impl<'de, 'a, 't> de::Deserializer<'de> for &'a mut TapeDe<'t> {
             sname: "",
             idx: 0,
             pinned_total: 0,
+            cur_override: None,
         });
         self.depth -= 1;
         r
@@ -450,6 +540,11 @@ impl<'de, 'a, 't> de::Deserializer<'de> for &'a mut TapeDe<'t> {
         fields: &'static [&'static str],
         v: V,
     ) -> Result<V::Value, DeErr> {
+        // distinct-counts family only: `OffsetMarker{obj}` / `NullableOffsetMarker{obj}` are transparent,
+        // i.e. the (struct, field) context of the offset field reaches the Option / sequence inside,
+        // so that forced presence and forced lengths apply to arrays behind offsets as well
+        let wrapper = self.forced_options.is_some() && fields.len() == 1 && fields[0] == "obj" && (name == "OffsetMarker" || name == "NullableOffsetMarker");
+        let outer = self.cur;
         self.cur = None;
         self.flag_alpha = if fields.len() == 1 && fields[0] == "bits" {
             self.flag_alphabets.get(name)
@@ -457,6 +552,12 @@ impl<'de, 'a, 't> de::Deserializer<'de> for &'a mut TapeDe<'t> {
             None
         };
         self.enter()?;
+        let known = if wrapper {
+            self.struct_stack.last().copied().unwrap_or(false)
+        } else {
+            self.counter_structs.map(|k| k.contains(name)).unwrap_or(false)
+        };
+        self.struct_stack.push(known);
         let r = v.visit_seq(Seq {
             de: &mut *self,
             left: fields.len(),
@@ -464,7 +565,9 @@ impl<'de, 'a, 't> de::Deserializer<'de> for &'a mut TapeDe<'t> {
             sname: name,
             idx: 0,
             pinned_total: 0,
+            cur_override: if wrapper { outer } else { None },
         });
+        self.struct_stack.pop();
         self.depth -= 1;
         r
     }
@@ -495,6 +598,8 @@ struct Seq<'a, 't> {
     /// for a literal-count array longer than PIN_ABOVE: its length; only elements 0, 1 and the last
     /// are choice points, the others are pinned to their default
     pinned_total: usize,
+    /// transparent offset-marker wrapper: the context handed to the single inner field
+    cur_override: Option<(&'static str, &'static str)>,
 }
 
 /// literal-count arrays up to this length have every element as a choice point
@@ -510,7 +615,7 @@ impl<'de, 'a, 't> de::SeqAccess<'de> for Seq<'a, 't> {
             return Ok(None);
         }
         self.left -= 1;
-        self.de.cur = self.fields.map(|f| (self.sname, f[self.idx]));
+        self.de.cur = self.cur_override.or(self.fields.map(|f| (self.sname, f[self.idx])));
         self.de.newtype = None;
         let i = self.idx;
         self.idx += 1;
